@@ -2,6 +2,7 @@ package fault
 
 import (
 	"fmt"
+	"runtime"
 	"sort"
 	"strings"
 	"sync"
@@ -126,11 +127,20 @@ type injector struct {
 	fired  map[string]int // "class:kind" -> count
 	ops    int
 
+	// suppress, if set, is consulted when a fault is about to fire; if it returns
+	// true the fault does not happen (known-finding classes excluded by
+	// construction); suppressed counts them.
+	suppress   func() string
+	suppressed map[string]int
+
 	// frozen: the DB was abandoned (Fatalf / foreground panic / watchdog): every
 	// further FS operation of its goroutines blocks forever, which is the closest
 	// in-process approximation of "the process is gone".
 	frozen atomic.Bool
 }
+
+// debugFire, if set, is called (with the injector locked) whenever a fault fires.
+var debugFire func(op errorfs.Op)
 
 func newInjector(rules []Rule) *injector {
 	return &injector{rules: rules, st: make([]ruleState, len(rules)), fired: map[string]int{}, step: -1}
@@ -174,8 +184,20 @@ func (in *injector) MaybeError(op errorfs.Op) error {
 	if !fire {
 		return nil
 	}
+	if in.suppress != nil {
+		if sig := in.suppress(); sig != "" {
+			if in.suppressed == nil {
+				in.suppressed = map[string]int{}
+			}
+			in.suppressed[sig]++
+			return nil
+		}
+	}
 	in.total++
 	in.fired[cls+":"+kind]++
+	if debugFire != nil {
+		debugFire(op)
+	}
 	return errorfs.ErrInjected
 }
 
@@ -223,3 +245,55 @@ func (in *injector) firedLabels() []string {
 }
 
 func (in *injector) freeze() { in.frozen.Store(true) }
+
+// SigCompactFirst is the signature of the candidate finding: a read error met
+// while a compaction positions its range-key / range-deletion input iterators
+// for the first time (compact.(*Iter).First -> keyspan.InterleavingIter.First ->
+// keyspanimpl.{MergingIter,LevelIter}.First) is swallowed; the compaction sees
+// an empty input, succeeds, and its input tables are deleted.
+const SigCompactFirst = "compaction-first-positioning-keyspan-read-error-swallowed"
+
+// SigCompactSaveValue is the signature of the candidate finding: an error met
+// by compact.(*Iter).saveValue (fetching a value from a value block) is stored
+// in Iter.err, but if the saved key is the last one of the compaction input the
+// following iterNext overwrites it with iter.Error() == nil; the key is written
+// with an empty value. The excluded class is "a fault fires inside saveValue"
+// (whether the key is the last one cannot be known at that point).
+const SigCompactSaveValue = "compaction-savevalue-error-overwritten-at-end-of-input"
+
+// knownFindingClass classifies the calling goroutine's stack: it returns the
+// signature of the known-finding class a fault fired now would belong to
+// (active reports whether a signature is listed), or "".
+func knownFindingClass(active func(sig string) bool) func() string {
+	first, save := active(SigCompactFirst), active(SigCompactSaveValue)
+	if !first && !save {
+		return nil
+	}
+	return func() string {
+		pcs := make([]uintptr, 96)
+		n := runtime.Callers(2, pcs)
+		frames := runtime.CallersFrames(pcs[:n])
+		inFirst, inKeyspan, inSave := false, false, false
+		for {
+			f, more := frames.Next()
+			switch {
+			case strings.HasSuffix(f.Function, "/internal/compact.(*Iter).First"):
+				inFirst = true
+			case strings.HasSuffix(f.Function, "/internal/compact.(*Iter).saveValue"):
+				inSave = true
+			case strings.Contains(f.Function, "/internal/keyspan/keyspanimpl."):
+				inKeyspan = true
+			}
+			if !more {
+				break
+			}
+		}
+		switch {
+		case save && inSave:
+			return SigCompactSaveValue
+		case first && inFirst && inKeyspan:
+			return SigCompactFirst
+		}
+		return ""
+	}
+}
